@@ -16,6 +16,12 @@ VEC_FOOT = re.compile(r"^# (\d+) element vector <(\w+)(\?)?>$")
 TAB_FOOT = re.compile(r"^# (\d+)×(\d+) table <(.*)>$")
 
 
+def dtype_token(schema):
+    if schema is None:
+        return "object"
+    return schema.kind.__name__ + ("?" if schema.nullable else "")
+
+
 def body_ids(lines):
     """row ids (values >= 1000 in the first column) and '...' markers, in order"""
     out = []
@@ -34,6 +40,7 @@ def replay(cases_path, out_path):
     cases = json.load(open(cases_path))
     F, ex = Fails(), 0
     for n_case, c in enumerate(cases):
+        n_case = c.get("_n", n_case)
         n, limit, ncols = c["n"], c["limit"], c["ncols"]
         exp_rows = c["rows"]
         # ---------------- vector (global set_repr_rows)
@@ -71,6 +78,14 @@ def replay(cases_path, out_path):
         # ---------------- table (per-table _repr_rows and global setting alternate)
         names = [["a", "B b", None, "sum", "a"][k % 5] for k in range(ncols)]
         cols = [Vector([1000 + i + (0 if k == 0 else 5000 * k) for i in range(n)], name=names[k]) for k in range(ncols)]
+        odd = None
+        if ncols > 10 and n > 0 and n_case % 3:
+            # a column hidden by the column budget has another dtype (str) or is nullable
+            odd = 5 + (n_case % (ncols - 10))
+            if n_case % 3 == 1:
+                cols[odd] = Vector(["s%d" % i for i in range(n)], name=names[odd])
+            else:
+                cols[odd] = Vector([None] + [7] * (n - 1), name=names[odd])
         if n == 0:
             cols = [Vector([], name=names[k]) for k in range(ncols)]
         t = Table(cols)
@@ -96,8 +111,22 @@ def replay(cases_path, out_path):
             F.add("footer", c, foot, f"# {n}×{ncols} table <...>", **info)
         elif n > 0:
             tok = m.group(3)
-            if tok != "int" and not (tok == "mixed") and set(x.strip() for x in tok.split(",")) - {"int", "..."}:
-                F.add("footer_dtype", c, tok, "int", **info)
+            true = [dtype_token(col.schema()) for col in t.cols()]
+            if tok == "mixed":
+                if len(set(true)) == 1:
+                    F.add("footer_dtype", c, tok, true[0], **info)
+            elif "," not in tok:
+                # a single dtype claims that EVERY column has it (also the ones hidden by the column budget)
+                if set(true) != {tok}:
+                    F.add("footer_dtype", c, tok, sorted(set(true)), **info)
+            else:
+                listed = [x.strip() for x in tok.split(",")]
+                if "..." in listed:
+                    k = listed.index("...")
+                    if listed[:k] != true[:k] or listed[k + 1:] != true[len(true) - (len(listed) - k - 1):]:
+                        F.add("footer_dtype", c, tok, true, **info)
+                elif listed != true:
+                    F.add("footer_dtype", c, tok, true, **info)
         got = body_ids(lines[:-1])
         if n > 0 and got != exp_rows:
             F.add("preview_rows", c, got, exp_rows, **info)
